@@ -407,6 +407,17 @@ def opVoro (j : Json) : Except String Json := do
   let o := Voro.process S verts ridges
   pure (Json.mkObj [("edges", jlist jpairN o.edges), ("cross", jlist jpairI o.cross), ("verts", jnats o.verts)])
 
+
+/-! ### C16: segment intersection (exact) -/
+
+def opIntersect (j : Json) : Except String Json := do
+  let pairs ← listOf (listOf pairI) (← field j "pairs")
+  let res := pairs.map fun q =>
+    match Plot.intersects (q.getD 0 (0, 0)) (q.getD 1 (0, 0)) (q.getD 2 (0, 0)) (q.getD 3 (0, 0)) with
+    | some b => Json.bool b
+    | none => Json.null
+  pure (Json.mkObj [("hit", Json.arr res.toArray)])
+
 def dispatch (op : String) (j : Json) : Except String Json :=
   match op with
   | "plaquettes" => opPlaquettes j
@@ -426,6 +437,7 @@ def dispatch (op : String) (j : Json) : Except String Json :=
   | "dual" => opDual j
   | "sampling" => opSampling j
   | "voro" => opVoro j
+  | "intersect" => opIntersect j
   | "truncate" => opTruncate j
   | "metric" => opMetric j
   | "lateq" => opLatEq j
